@@ -1,5 +1,6 @@
 """Reader for parsing a DiffX file into DOM objects."""
 
+from pydiffx.errors import DiffXParseError
 from pydiffx.reader import DiffXReader
 from pydiffx.sections import Section
 
@@ -103,7 +104,12 @@ class DiffXDOMReader(object):
             section_info (dict):
                 Information on the section from the streaming reader.
         """
-        section.meta = section_info['metadata']
+        try:
+            section.meta = section_info['metadata']
+        except TypeError as e:
+            # The metadata was valid JSON, but not an object.
+            raise DiffXParseError(str(e), linenum=section_info['line'])
+
         self._set_content_options(section.meta_section,
                                   section_info['options'])
 
@@ -122,7 +128,12 @@ class DiffXDOMReader(object):
             section_info (dict):
                 Information on the section from the streaming reader.
         """
-        section.preamble = section_info['text']
+        try:
+            section.preamble = section_info['text']
+        except TypeError as e:
+            # Without an encoding, the text can't be decoded to a string.
+            raise DiffXParseError(str(e), linenum=section_info['line'])
+
         self._set_content_options(section.preamble_section,
                                   section_info['options'])
 
